@@ -205,12 +205,23 @@ class err_handler(object):
         #        logger.debug('del seg_data: %s' % map_node.name)
         #parent.children.append(err_seg(parent, map_node, seg_data, src))
 
+    def _in_open_set(self):
+        """
+        Is there a transaction set the current segment can belong to: one that
+        is not closed and lies in the current functional group (a set that lost
+        its SE stays unclosed for ever, but it ends with its group)
+        """
+        st_node = self.cur_st_node
+        if st_node is None or st_node.is_closed():
+            return False
+        return st_node.parent is self.cur_gs_node and not self.cur_gs_node.is_closed()
+
     def _add_cur_seg(self):
         """
         """
         #pdb.set_trace()
         if not self.seg_node_added:
-            if self.cur_st_node is None or self.cur_st_node.is_closed():
+            if not self._in_open_set():
                 # Segment outside of any transaction set: nowhere to attach it
                 return
             self.cur_st_node.children.append(self.cur_seg_node)
@@ -279,7 +290,7 @@ class err_handler(object):
         @param err_str: Description of the error
         @type err_str: string
         """
-        if self.cur_st_node is None or self.cur_st_node.is_closed():
+        if not self._in_open_set():
             # No enclosing transaction set: report on the functional group
             self.gs_error('1', 'ST:%s - %s' % (err_cde, err_str))
             return
@@ -297,7 +308,7 @@ class err_handler(object):
         @type err_str: string
         """
         sout = ''
-        if not self.seg_node_added and (self.cur_st_node is None or self.cur_st_node.is_closed()):
+        if not self.seg_node_added and (not self._in_open_set()):
             # A segment between the envelope segments, outside of any transaction
             # set, can not be filed under a set: it is invalid interchange content
             self._gs_content_error()
@@ -355,7 +366,7 @@ class err_handler(object):
         @type err_str: string
         """
         if self.cur_seg_node is not None and self.cur_seg_node.id == 'SEG' and not self.seg_node_added \
-                and (self.cur_st_node is None or self.cur_st_node.is_closed()):
+                and (not self._in_open_set()):
             # An element error of a segment outside of any transaction set (a
             # TA1): there is no set to file it under
             self._gs_content_error()
